@@ -320,8 +320,69 @@ RELEASE_ANY_ORDER = ReleaserInit(True, sorted_table=False)
 
 
 class Column(ModelObject):
-    def __init__(self, table, name, values=None):
-        self.table, self.name, self.values = table, name, values
+    """A column of the release table. ``name`` identifies a column of the file; ``fn`` (row -> real term) carries the
+    VALUES, so that element-wise pandas operations on a column (assumed contracts: arithmetic and comparison with a
+    scalar or another column act row by row, ``where(cond, other)`` keeps the value where cond holds and takes other
+    elsewhere, ``.values`` / ``.to_numpy()`` / ``.astype(float)`` / ``.copy()`` keep the values) are decided by value,
+    not by name."""
+
+    def __init__(self, table, name, values=None, fn=None, kind="real"):
+        self.table, self.name, self.values, self.kind = table, name, values, kind
+        if fn is None and values is None:
+            f = z3.Function(f"relcol_{name}", z3.IntSort(), z3.RealSort())
+            fn = lambda r: f(r)  # noqa: E731
+        self.fn = fn
+
+    @staticmethod
+    def _at(x, r):
+        if isinstance(x, Column):
+            if x.fn is None:
+                raise Unsupported("arithmetic on a converted column")
+            return x.fn(r)
+        from fractions import Fraction
+
+        if isinstance(x, (int, float, Fraction)) and not isinstance(x, bool):
+            x = V.to_z3(x)
+        if z3.is_expr(x):
+            return z3.ToReal(x) if z3.is_int(x) else x
+        raise Unsupported(f"column operation with {type(x).__name__}")
+
+    def pv_binop(self, cx, op, other):
+        me = self
+        ops = {"+": lambda a, b: a + b, "-": lambda a, b: a - b, "*": lambda a, b: a * b}
+        if op not in ops:
+            raise Unsupported(f"column operator {op}")
+        return Column(None, f"({self.name} {op} ...)", fn=lambda r: ops[op](me._at(me, r), me._at(other, r)))
+
+    def compare(self, op, other):
+        me = self
+        ops = {"<": lambda a, b: a < b, "<=": lambda a, b: a <= b, ">": lambda a, b: a > b, ">=": lambda a, b: a >= b, "==": lambda a, b: a == b, "!=": lambda a, b: a != b}
+        return Column(None, f"({self.name} {op} ...)", fn=lambda r: ops[op](me._at(me, r), me._at(other, r)), kind="bool")
+
+    def pv_getattr(self, cx, name):
+        me = self
+        if self.fn is None:
+            raise Unsupported(f"Series.{name} on a converted column")
+        if name == "values":
+            return self
+        if name in ("to_numpy", "copy", "astype"):
+            def same(interp, *a, **k):
+                if name == "astype" and not (a and a[0] in (float, "float", "float64", "f8")):
+                    raise Unsupported("Series.astype to something else than float")
+                return me
+
+            same._pyvc_model = True
+            return same
+        if name in ("where", "mask"):
+            def where(interp, cond, other=None, **k):
+                if not (isinstance(cond, Column) and cond.kind == "bool") or other is None or k:
+                    raise Unsupported(f"Series.{name}: only (boolean column, replacement) is modelled")
+                keep = (lambda r: cond.fn(r)) if name == "where" else (lambda r: z3.Not(cond.fn(r)))
+                return Column(None, f"{name}({me.name})", fn=lambda r: z3.If(keep(r), me._at(me, r), me._at(other, r)))
+
+            where._pyvc_model = True
+            return where
+        raise Unsupported(f"Series.{name}: no assumed contract")
 
 
 class PosTable(Table):
@@ -383,9 +444,14 @@ class CleanPosition(Spec):
         if has_xy:
             return [("C04: given grid coordinates are used as they are (no conversion, no column touched)", df.columns == set(self.cols) | {"mult", "Z"} and not df.extra_cols)]
         x, y = df.extra_cols.get("X"), df.extra_cols.get("Y")
-        ok = isinstance(x, Column) and isinstance(y, Column) and x.name == "ll2xy->X" and y.name == "ll2xy->Y" and x.values == ("lon", "lat") and y.values == ("lon", "lat")
-        return [
-            ("C04/C16: a release given by longitude/latitude starts at X, Y = grid.ll2xy(lon, lat), X from the first and Y from the second result", ok),
+        ok = isinstance(x, Column) and isinstance(y, Column) and x.name == "ll2xy->X" and y.name == "ll2xy->Y" and x.values == y.values and isinstance(x.values, tuple) and all(isinstance(c, Column) and c.fn is not None for c in x.values)
+        out = [("C04/C16: a release given by longitude/latitude starts at X, Y = grid.ll2xy(.., ..), X from the first and Y from the second result of one call", ok)]
+        if ok:
+            r = z3.Int("release_row")
+            lon, lat = Column(None, "lon"), Column(None, "lat")
+            out.append(("C16: the longitude handed to ll2xy is the longitude GIVEN in the release file, for every row", x.values[0].fn(r) == lon.fn(r)))
+            out.append(("C16: the latitude handed to ll2xy is the latitude GIVEN in the release file, for every row", x.values[1].fn(r) == lat.fn(r)))
+        return out + [
             ("C04: the position columns are named X and Y afterwards (lon/lat replaced)", {"X", "Y"} <= df.columns and "lon" not in df.columns and "lat" not in df.columns),
         ]
 
@@ -395,7 +461,7 @@ class GridLL(ModelObject):
         if name == "ll2xy":
 
             def ll2xy(interp, lon, lat):
-                tag = (getattr(lon, "name", None), getattr(lat, "name", None))
+                tag = (lon, lat)
                 return (Column(None, "ll2xy->X", tag), Column(None, "ll2xy->Y", tag))
 
             ll2xy._pyvc_model = True
